@@ -60,23 +60,32 @@ func cat(ts ...tmpl) tmpl {
 // dirty features: constructs the pinned tree is known to get wrong. A clean
 // case contains none; a dirty case is allowed exactly one of them.
 var dirtyFeatures = []string{
-	"caret", "nest-same", "nest-param", "sep-struct", "tab-colinc", "tab-default", "tab-in-block", "amp-in-block",
+	"caret", "tab-colinc", "tab-default", "tab-in-block", "amp-in-block",
 	"radix", "english", "charparam", "nonint", "case-word", "upper-v", "nonascii",
-	"empty-string", "cond-bignum", "proc-nil", "v-nil", "tilde-param", "tab-colinc-0", "nest-close-colon",
+	"cond-bignum", "proc-nil", "v-nil", "tab-colinc-0",
+}
+
+// repaired in /repo since the pinned tree (findings with status "fixed: ..."):
+// generated freely in the clean stream again.
+var repairedFeatures = map[string]bool{
+	"nest-same": true, "nest-param": true, "nest-close-colon": true, "sep-struct": true, "tilde-param": true, "empty-string": true,
 }
 
 // G generates templates.
 type G struct {
 	r     *rand.Rand
 	dirty string
-	hit   bool // the dirty feature was actually used
+	hit   *bool // the dirty feature was actually used (shared by copies of G)
 }
 
-func (g *G) allow(f string) bool { return g.dirty == f }
+func (g *G) allow(f string) bool { return repairedFeatures[f] || g.dirty == f }
 
 func (g *G) use(f string) bool {
-	if g.dirty == f && (!g.hit || g.r.IntN(3) == 0) {
-		g.hit = true
+	if repairedFeatures[f] {
+		return g.r.IntN(2) == 0
+	}
+	if g.dirty == f && (!*g.hit || g.r.IntN(3) == 0) {
+		*g.hit = true
 		return true
 	}
 	return false
@@ -275,7 +284,7 @@ func (g *G) params(slots []pslot) (string, []func(r *rand.Rand) ref.Val) {
 					return iv(int64(lo + r.IntN(hi-lo+1)))
 				})
 			} else {
-				dirty := g.allow("nonascii")
+				dirty := g.use("nonascii")
 				pre = append(pre, func(r *rand.Rand) ref.Val {
 					if r.IntN(8) == 0 {
 						return nilv()
@@ -393,31 +402,13 @@ func (g *G) asDir() tmpl {
 
 // englishClean tells whether slip's speller is not known to be wrong for n
 // (see the findings: a group with tens >= 2 and units 0, a lowest group of
-// 000, anything from 10^18 up, ordinals whose last word is not a unit/teen).
+// 000, ordinals ending in hundred).
 func englishClean(n *big.Int, ordinal bool) bool {
 	a := new(big.Int).Abs(n)
 	if a.Sign() == 0 {
 		return true
 	}
-	if 0 <= a.Cmp(pow(10, 18)) {
-		return false
-	}
-	v := a.Int64()
-	if 1000 <= v && v%1000 == 0 {
-		return false
-	}
-	first := true
-	for x := v; 0 < x; x /= 1000 {
-		grp := x % 1000
-		if 20 <= grp%100 && grp%10 == 0 {
-			return false
-		}
-		if first && ordinal && (grp%100 == 0 || grp == 0) {
-			return false
-		}
-		first = false
-	}
-	return true
+	return len(englishClasses(n, ordinal)) == 0
 }
 
 func (g *G) englishInt(ordinal bool) func(r *rand.Rand) ref.Val {
@@ -510,6 +501,9 @@ func (g *G) tDir(inBlock bool) tmpl {
 		slots = []pslot{{kind: 'n', lo: 0, hi: 20, hashOK: true, p: 100}, {kind: 'n', lo: 2, hi: 8, p: 100}}
 	default:
 		slots = []pslot{{kind: 'n', lo: 0, hi: 20, hashOK: true, p: 100}, {kind: 'n', lo: 1, hi: 1, p: 30}}
+	}
+	if !g.allow("tab-default") {
+		slots[0].noNil = true // a nil v parameter means the default column
 	}
 	ptxt, pre := g.params(slots)
 	return tmpl{text: "~" + ptxt + m + g.letter('t'), n: len(pre), inst: withPre(pre, nil)}
@@ -770,6 +764,10 @@ func (g *G) caseBlock(e env) tmpl {
 			}
 		}
 		body = cat(ps...)
+	}
+	if m == "@" && !g.allow("case-word") {
+		// the first word starts the text
+		body = cat(lit(genWord(g.r)), body)
 	}
 	t := cat(lit("~"+m+"("), body, lit("~)"))
 	t.kind = '('
@@ -1032,7 +1030,13 @@ func (g *G) topLevel() (string, []ref.Val) {
 		t2 := g.seq(e, 2, false)
 		return t.text + "~^" + t2.text, args
 	}
-	if g.r.IntN(12) == 0 && !t.open && 0 < len(args) {
+	hasEmpty := false
+	for _, a := range args {
+		if a.K == "s" && a.S == "" {
+			hasEmpty = true
+		}
+	}
+	if g.r.IntN(12) == 0 && !t.open && 0 < len(args) && !hasEmpty {
 		k := g.r.IntN(len(args) + 1)
 		txt := t.text + fmt.Sprintf("~%d@*", k)
 		if k == 0 && g.r.IntN(2) == 0 {
